@@ -8,9 +8,14 @@ package main
 import (
 	"bytes"
 	"fmt"
+	"reflect"
+	"sort"
+	"strings"
+	"unsafe"
 
 	dtpb "github.com/google/fhir/go/proto/google/fhir/proto/r4/core/datatypes_go_proto"
 	"github.com/verily-src/fhirpath-go/fhirpath"
+	"github.com/verily-src/fhirpath-go/fhirpath/compopts"
 	"github.com/verily-src/fhirpath-go/fhirpath/evalopts"
 	"github.com/verily-src/fhirpath-go/fhirpath/system"
 	"github.com/verily-src/fhirpath-go/internal/fhir"
@@ -65,20 +70,148 @@ func withCapacity(items system.Collection, spare int) system.Collection {
 	return c
 }
 
+// deepDump renders every field (exported or not) reachable from v, so that two dumps are equal
+// exactly when nothing reachable changed; proto messages are rendered by their deterministic bytes
+// (their Go structs carry lazily initialised internal state), functions by identity only.
+func deepDump(v any) string {
+	var b strings.Builder
+	seen := map[uintptr]bool{}
+	var walk func(rv reflect.Value, depth int)
+	protoType := reflect.TypeOf((*proto.Message)(nil)).Elem()
+	walk = func(rv reflect.Value, depth int) {
+		if depth > 200 {
+			b.WriteString("<deep>")
+			return
+		}
+		switch rv.Kind() {
+		case reflect.Invalid:
+			b.WriteString("<nil>")
+		case reflect.Bool:
+			fmt.Fprint(&b, rv.Bool())
+		case reflect.Int, reflect.Int8, reflect.Int16, reflect.Int32, reflect.Int64:
+			fmt.Fprint(&b, rv.Int())
+		case reflect.Uint, reflect.Uint8, reflect.Uint16, reflect.Uint32, reflect.Uint64, reflect.Uintptr:
+			fmt.Fprint(&b, rv.Uint())
+		case reflect.Float32, reflect.Float64:
+			fmt.Fprint(&b, rv.Float())
+		case reflect.String:
+			fmt.Fprintf(&b, "%q", rv.String())
+		case reflect.Func, reflect.Chan, reflect.UnsafePointer:
+			b.WriteString("<" + rv.Kind().String() + ">")
+		case reflect.Interface:
+			if rv.IsNil() {
+				b.WriteString("<nil>")
+				return
+			}
+			b.WriteString(rv.Elem().Type().String() + ":")
+			walk(rv.Elem(), depth+1)
+		case reflect.Ptr:
+			if rv.IsNil() {
+				b.WriteString("<nil>")
+				return
+			}
+			if rv.Type().Implements(protoType) {
+				m := reflect.NewAt(rv.Type().Elem(), unsafe.Pointer(rv.Pointer())).Interface().(proto.Message)
+				fmt.Fprintf(&b, "proto(%x)", detBytes(m))
+				return
+			}
+			if seen[rv.Pointer()] {
+				b.WriteString("<seen>")
+				return
+			}
+			seen[rv.Pointer()] = true
+			b.WriteString("&")
+			walk(rv.Elem(), depth+1)
+		case reflect.Slice, reflect.Array:
+			fmt.Fprintf(&b, "[%d:", rv.Len())
+			for i := 0; i < rv.Len(); i++ {
+				walk(rv.Index(i), depth+1)
+				b.WriteString(",")
+			}
+			b.WriteString("]")
+		case reflect.Map:
+			var parts []string
+			it := rv.MapRange()
+			for it.Next() {
+				var kb strings.Builder
+				old := b
+				b = kb
+				walk(it.Key(), depth+1)
+				b.WriteString("=>")
+				walk(it.Value(), depth+1)
+				parts = append(parts, b.String())
+				b = old
+			}
+			sort.Strings(parts)
+			b.WriteString("map{" + strings.Join(parts, ";") + "}")
+		case reflect.Struct:
+			b.WriteString(rv.Type().String() + "{")
+			for i := 0; i < rv.NumField(); i++ {
+				b.WriteString(rv.Type().Field(i).Name + ":")
+				walk(rv.Field(i), depth+1)
+				b.WriteString(";")
+			}
+			b.WriteString("}")
+		default:
+			b.WriteString("<" + rv.Kind().String() + ">")
+		}
+	}
+	walk(reflect.ValueOf(v), 0)
+	return b.String()
+}
+
+// programs aimed at the places where a result could share storage with an input: collections that
+// come from environment variables (spare capacity, sub-slices), indexers with computed indices,
+// references (whose string form is synthesised), and functions that sort / de-duplicate / combine
+func c03Targeted(rn string) []string {
+	multi := []string{rn + ".descendants().take(3)", rn + ".children()", "%nc", "%n"}
+	var out []string
+	for _, x := range multi {
+		for _, t := range []string{"X.select(%nc)", "X.select(%nc.take(1))", "X.select(%n)", "X.select(%ec)", "X.select(%nc.skip(1))", "X.repeat(%nc.take(1))", "X.where(true).select(%nc)",
+			"X.select($this).select(%nc.tail())", "X.combine(%nc)", "%nc.combine(X)", "X.union(%nc)", "%nc.union(X)", "X.exclude(%nc)", "%nc.exclude(X)", "X.intersect(%nc)", "%nc.intersect(X)",
+			"X.distinct()", "X.tail()", "X.skip(1)", "X.take(1)", "X.first()", "X.last()", "X.where(true)", "X.ofType(Integer)", "X.children()", "X.trace('t')", "iif(true, %nc, X)", "iif(false, X, %nc)",
+			"X.aggregate($total.combine($this), %nc)", "X.aggregate($total.combine($this), %ec)", "X[count() - 1]", "X[0 + 1]", "X[-1 + 1]", "X[%nc.first()]", "X[%nc.first() - 1]", "X[count() div 2]",
+			"X.select($this)[$index]", "X.toString()", "X.first() & 'x'", "X.isDistinct()", "X.exists($this = %nc.first())", "X.all($this.exists())", "X.subsetOf(%nc)", "%nc.supersetOf(X)"} {
+			out = append(out, strings.ReplaceAll(t, "X", x))
+		}
+	}
+	out = append(out, rn+".descendants().reference", rn+".descendants().ofType(Reference).reference", rn+".descendants().ofType(Reference).children()", rn+".descendants().ofType(Reference)",
+		rn+".descendants().where(reference.exists()).reference", rn+".descendants().value", rn+".descendants().select(reference)", rn+".children().children().reference")
+	return out
+}
+
 func runC03(c *Ctx) {
-	c.meta.Rule = "generated programs (depth 1..4 over every node kind and table function) x generated resources of 8 types x environment variables {%r = the resource itself, %n = a path result aliasing its elements, %ec = empty collection with spare capacity, %nc = non-empty collection with spare capacity, %e = empty}; before/after: deterministic bytes, proto.Equal, full backing arrays incl. sentinels beyond len, the input slice; result elements must be input nodes; non-trivial = program evaluated without compile error; distinct by program text"
+	c.meta.Rule = "generated programs (depth 1..4 over every node kind and table function) x generated resources of 8 types x environment variables {%r = the resource itself, %n = a path result aliasing its elements, %ec = empty collection with spare capacity, %nc = non-empty collection with spare capacity, %e = empty}; plus ~190 targeted programs per resource (projection / combination / subsetting over environment collections and their sub-slices, computed indices, synthesised reference strings); before/after: the compiled expression (every reachable field), deterministic bytes, proto.Equal, full backing arrays incl. sentinels beyond len, the input slice; result elements must be input nodes; non-trivial = program evaluated without compile error; distinct by program text"
 	g := &ResGen{r: c.rng, maxDepth: 3, density: 60}
 	types := []string{"Patient", "Observation", "Encounter", "Bundle", "MedicationRequest", "Condition", "Practitioner", "Questionnaire"}
 	nRes, nProg := 16, 120
 	if c.thorough {
 		nRes, nProg = 80, 400
 	}
-	for ri := 0; ri < nRes; ri++ {
-		rn := types[ri%len(types)]
-		res, js := g.GenValid(rn, c)
+	// hand-made resources with the reference forms whose string is synthesised on navigation
+	type fixedRes struct{ rn, js string }
+	fixed := []fixedRes{
+		{"Patient", `{"resourceType":"Patient","id":"p","managingOrganization":{"reference":"Organization/org1/_history/3","display":"d"},"generalPractitioner":[{"reference":"Practitioner/pr/_history/1"},{"reference":"#c1"},{"reference":"urn:uuid:53fefa32-fcbb-4ff8-8a92-55ee120877b7"}],"link":[{"other":{"reference":"RelatedPerson/r/_history/22"},"type":"seealso"}],"name":[{"given":["a","b"]},{"given":["a","b"]}]}`},
+		{"Observation", `{"resourceType":"Observation","id":"o","status":"final","code":{"text":"c"},"subject":{"reference":"Patient/123/_history/4"},"performer":[{"reference":"Practitioner/x"},{"reference":"Organization/y/_history/9"}],"valueQuantity":{"value":1.50,"unit":"mg"},"referenceRange":[{"low":{"value":1.5},"high":{"value":1.50}}]}`},
+	}
+	for ri := 0; ri < nRes+len(fixed); ri++ {
+		var rn string
+		var res fhir.Resource
+		var js []byte
+		if ri < len(fixed) {
+			rn = fixed[ri].rn
+			res = mustResource(fixed[ri].js)
+			js = []byte(fixed[ri].js)
+		} else {
+			rn = types[ri%len(types)]
+			res, js = g.GenValid(rn, c)
+		}
 		if res == nil {
 			continue
 		}
+		// the resource as generated, before anything is evaluated over it (the set-up below
+		// evaluates too): every later comparison is against this
+		pristine, pristineClone := detBytes(res), proto.Clone(res)
 		pg := NewProgGen(c.rng, js, []string{"r", "n", "ec", "nc", "e"})
 		// the set of message pointers that make up the input
 		nodes := map[proto.Message]bool{res: true}
@@ -93,9 +226,18 @@ func runC03(c *Ctx) {
 		if o := compileEval(rn+".descendants().take(5)", []fhir.Resource{res}); o.Err == nil {
 			nameColl = o.Coll
 		}
-		for pi := 0; pi < nProg; pi++ {
-			src := pg.Any(1 + c.rng.Intn(4))
-			e, err := fhirpath.Compile(src)
+		targeted := c03Targeted(rn)
+		for pi := 0; pi < nProg+len(targeted); pi++ {
+			var src string
+			if pi < len(targeted) {
+				src = targeted[pi]
+			} else {
+				src = pg.Any(1 + c.rng.Intn(4))
+			}
+			e, err := fhirpath.Compile(src, compopts.WithExperimentalFuncs())
+			if err != nil {
+				e, err = fhirpath.Compile(src)
+			}
 			if err != nil {
 				c.Count("compile-error")
 				continue
@@ -106,9 +248,10 @@ func runC03(c *Ctx) {
 			ec := withCapacity(system.Collection{}, 4)
 			nc := withCapacity(system.Collection{system.Integer(1), fhir.String("s")}, 3)
 			n := withCapacity(nameColl, 2)
-			before := detBytes(res)
+			before := pristine
 			snapEC, snapNC, snapN := snapshotSlice(ec), snapshotSlice(nc), snapshotSlice(n)
-			clone := proto.Clone(res)
+			clone := pristineClone
+			exprBefore := deepDump(e)
 			o := safeEval(func() (system.Collection, error) {
 				return e.Evaluate(inSlice, evalopts.EnvVariable("r", res), evalopts.EnvVariable("n", n), evalopts.EnvVariable("ec", ec),
 					evalopts.EnvVariable("nc", nc), evalopts.EnvVariable("e", system.Collection{}))
@@ -127,6 +270,7 @@ func runC03(c *Ctx) {
 			c.Law(sameSnapshot(snapNC, nc), "C03/env-backing-array", "evaluation leaves the backing array of an environment collection unchanged", "%nc :: "+src, fmt.Sprint(nc[:cap(nc)]))
 			c.Law(sameSnapshot(snapN, n), "C03/env-backing-array", "evaluation leaves the backing array of an environment collection unchanged", "%n :: "+src, "changed")
 			c.Law(len(inSlice) == 1 && inSlice[0] == res && inSlice[:4][1] == nil, "C03/input-slice", "the input slice is unchanged", src, "changed")
+			c.Law(deepDump(e) == exprBefore, "C03/expression-mutated", "evaluation leaves the compiled expression unchanged", rn+" :: "+src, "a field reachable from the Expression changed")
 			// result elements are the input's own nodes (or synthesised strings / unpacked contained copies)
 			if o.Err == nil && !o.Panicked && !hasContained {
 				for _, it := range o.Coll {
